@@ -138,6 +138,13 @@ impl FileSystem {
         Ok(())
     }
 
+    /// remove the internal info (checksums) of an object
+    pub(crate) fn delete_internal_info(&self, bucket: &str, key: &str) -> Result<()> {
+        let path = self.get_internal_info_path(bucket, key)?;
+        std::fs::remove_file(path)?;
+        Ok(())
+    }
+
     pub(crate) async fn load_internal_info(&self, bucket: &str, key: &str) -> Result<Option<InternalInfo>> {
         let path = self.get_internal_info_path(bucket, key)?;
         if path.exists().not() {
